@@ -7,12 +7,19 @@ for name in $names; do
   src=/verif/seeded/$name
   prop=$(python3 -c "import json;print(json.load(open('$src/meta.json'))['property'])")
   d=/tmp/reseed-$$-$name
-  git -C /repo worktree add -q --detach $d HEAD || continue
+  applied=""
+  # the patch was written for /repo HEAD of its time; later fix: commits may conflict with it, then the base it was
+  # confirmed against is used (newest first)
+  for base in HEAD dbb59a8 0da4da8 9a6d764; do
+    git -C /repo worktree add -q --detach $d $base || continue
+    if git -C $d apply $src/patch.diff 2>/dev/null || { git -C $d apply -3 $src/patch.diff 2>/dev/null && ! git -C $d diff --name-only --diff-filter=U | grep -q .; }; then applied=$base; break; fi
+    git -C /repo worktree remove --force $d 2>/dev/null
+  done
   tag=$(python3 -c "import hashlib;print(hashlib.sha1('$d'.encode()).hexdigest()[:8])")
-  if git -C $d apply $src/patch.diff 2>/dev/null || { git -C $d apply -3 $src/patch.diff 2>/dev/null && ! git -C $d diff --name-only --diff-filter=U | grep -q .; }; then
+  if [ -n "$applied" ]; then
     out=$(VERIF_REPO=$d VERIF_MAXVIOL=1 timeout 900 ./check $prop quick 2>&1); rc=$?
     key=$(echo "$out" | grep -a -m1 '^  key:' | cut -c1-100)
-    echo "$name $prop rc=$rc $key"
+    echo "$name $prop base=$applied rc=$rc $key"
   else
     echo "$name $prop PATCH-DOES-NOT-APPLY"
   fi
